@@ -314,7 +314,7 @@ def mms_loss_lemma(run):
     shapes = ["^2 (ab)_3 X", "^2 a_3 X", "^2 _3 X", "X ^2", "^2 (ab) X"]
     return crate, [dict(id="D-C01-g.convert_to_mmultiscripts_loses_no_sibling[%s]" % sh, harness="mms_shape_%d" % k, api=lambda v, o: api_mms_loss(),
                         role=lambda v, o: "sibling-between-script-and-base-dropped",
-                        covers=["the conversion returns reachable"],
+                        covers=["the conversion returns reachable"], deep=sh in ("^2 a_3 X", "^2 _3 X"),      # the two heaviest shapes (270-290 s each): thorough tier only
                         claim="every visible token of the row is still under one of the row's children after the conversion") for k, sh in enumerate(shapes)]
 
 
